@@ -858,11 +858,11 @@ const ALPHA_MIXED: usize = 4;
 
 // weights: New, NewDefault, Set, Compose6, Compose7, Select, CopyOut, SortInPlace
 const MIXES: [[u32; 8]; 5] = [
-    [6, 2, 40, 2, 2, 3, 3, 1],   // setter heavy
-    [14, 2, 14, 12, 12, 4, 3, 1], // compose heavy
-    [10, 1, 12, 5, 5, 24, 3, 1], // select heavy
-    [10, 3, 20, 6, 6, 8, 6, 3],  // balanced
-    [8, 2, 20, 3, 3, 4, 20, 2],  // copy heavy
+    [3, 1, 48, 2, 2, 3, 3, 1],   // setter heavy
+    [8, 2, 18, 12, 12, 4, 3, 1], // compose heavy
+    [5, 1, 16, 4, 4, 24, 3, 1],  // select heavy
+    [6, 2, 26, 6, 6, 8, 6, 3],   // balanced
+    [5, 1, 24, 3, 3, 4, 18, 2],  // copy heavy
 ];
 
 struct Gen<'a> {
@@ -949,6 +949,11 @@ impl<'a> Gen<'a> {
     }
 
     fn dst(&mut self) -> usize {
+        // prefer a free register, so that objects live long enough to collect a history
+        let free: Vec<usize> = (0..self.nregs).filter(|r| self.shadow[*r].n == 0).collect();
+        if !free.is_empty() && self.rng.chance(3, 4) {
+            return *self.rng.pick(&free);
+        }
         self.rng.usize_below(self.nregs)
     }
 
@@ -980,6 +985,11 @@ impl World for C19 {
     }
     fn cell_bits() -> usize {
         CELL_BITS
+    }
+    fn cells_reachable() -> Option<u64> {
+        // Set: sum over sizes of slots x 2^slots = 1536; CopyOut: sum of 2^slots = 252;
+        // New, NewDefault, SortInPlace: one per size; Compose: 2; Select: 6 + 7 first indexes
+        Some(1536 + 252 + 6 + 6 + 6 + 2 + 13)
     }
     fn cell_rule() -> &'static str {
         "abstract step cell = (operation kind, container size, slot written or first selected index, mask of slots of that register already overwritten by setters since it was created)"
@@ -1274,6 +1284,157 @@ impl World for C19 {
                     out.push((format!("selection from {} tuples batch {}", SIZE_NAMES[n as usize], batch), std::mem::replace(&mut ops, vec![Op::New { dst: 0, n, via: VIA_ARR, words: tagged(0) }])));
                     batch += 1;
                 }
+            }
+        }
+        // state x written word x slot: a register whose slot j holds card/blank `a` (tags elsewhere)
+        // receives card/blank `b` in slot k, for every a, b in {52 cards, blank} and every (j, k)
+        for n in 2..=7u8 {
+            for j in 0..n {
+                for k in 0..n {
+                    let mut ops: Vec<Op> = Vec::new();
+                    for a in 0..53usize {
+                        let wa = if a < 52 { card_word(a) } else { 0 };
+                        let mut w = tagged(0);
+                        w[j as usize] = wa;
+                        ops.push(Op::New { dst: 0, n, via: VIA_ARR, words: w });
+                        for b in 0..53usize {
+                            let wb = if b < 52 { card_word(b) } else { 0 };
+                            ops.push(Op::Set { r: 0, k, w: wb });
+                            if j == k || b % 13 == 12 {
+                                // restore so that the next writes again meet `a` in slot j
+                                ops.push(Op::New { dst: 0, n, via: VIA_ARR, words: w });
+                            }
+                        }
+                    }
+                    out.push((format!("content x word sweep {} holds-at {} writes-at {}", SIZE_NAMES[n as usize], j, k), ops));
+                }
+            }
+        }
+        // boundary words through every setter and every constructor kind
+        let mut boundary: Vec<u32> = Vec::new();
+        for b in 0..32 {
+            boundary.push(1u32 << b);
+            boundary.push((1u32 << b).wrapping_sub(1));
+            boundary.push(!(1u32 << b));
+        }
+        boundary.extend_from_slice(&[0x1FFF_FFFF, 0x2000_0000, 0x3FFF_FFFF, 0xE000_0000, 0x0000_F000, 0x1FFF_0000, 0x0000_003F, 0x0000_0F00]);
+        for n in 2..=7u8 {
+            let vias: &[u8] = match n {
+                2 => &[VIA_ARR, VIA_REF, VIA_NEWFN],
+                3 => &[VIA_ARR, VIA_TUPLE],
+                5 => &[VIA_ARR, VIA_NEWFN],
+                _ => &[VIA_ARR],
+            };
+            for via in vias {
+                let mut ops = Vec::new();
+                for (i, bw) in boundary.iter().enumerate() {
+                    let mut w = [0u32; 7];
+                    for k in 0..n as usize {
+                        w[k] = boundary[(i + k * 5) % boundary.len()];
+                    }
+                    w[i % n as usize] = *bw;
+                    ops.push(Op::New { dst: 0, n, via: *via, words: w });
+                    ops.push(Op::Set { r: 0, k: (i % n as usize) as u8, w: boundary[(i * 7 + 3) % boundary.len()] });
+                    ops.push(Op::Set { r: 0, k: ((i + 1) % n as usize) as u8, w: *bw });
+                }
+                out.push((format!("boundary words {} via {}", SIZE_NAMES[n as usize], via), ops));
+            }
+        }
+        // constructors from ordered / all-equal real cards (a "looks sorted already" or "looks valid" shortcut shows here)
+        for n in 2..=7u8 {
+            let vias: &[u8] = match n {
+                2 => &[VIA_ARR, VIA_REF, VIA_NEWFN],
+                3 => &[VIA_ARR, VIA_TUPLE],
+                5 => &[VIA_ARR, VIA_NEWFN],
+                _ => &[VIA_ARR],
+            };
+            let mut ops = Vec::new();
+            for via in vias {
+                for start in 0..46usize {
+                    let mut asc = [0u32; 7];
+                    let mut desc = [0u32; 7];
+                    let mut same = [0u32; 7];
+                    let mut blank_in = [0u32; 7];
+                    for k in 0..n as usize {
+                        // deck index grows = word shrinks within a suit; use sorted words explicitly
+                        desc[k] = card_word(start + k);
+                        same[k] = card_word(start);
+                        blank_in[k] = if k == start % n as usize { 0 } else { card_word(start + k) };
+                    }
+                    let mut sorted: Vec<u32> = desc[..n as usize].to_vec();
+                    sorted.sort_unstable();
+                    asc[..n as usize].copy_from_slice(&sorted);
+                    sorted.reverse();
+                    desc[..n as usize].copy_from_slice(&sorted);
+                    for w in [asc, desc, same, blank_in] {
+                        ops.push(Op::New { dst: 0, n, via: *via, words: w });
+                    }
+                }
+            }
+            out.push((format!("ordered and all-equal card arrays {}", SIZE_NAMES[n as usize]), ops));
+        }
+        // composite constructors: a blank at each position, and the same card at each pair of positions
+        for blank_at in 0..8usize {
+            let mut w = [0u32; 7];
+            for k in 0..7 {
+                w[k] = if k == blank_at { 0 } else { card_word(k * 7 + 1) };
+            }
+            out.push((
+                format!("composites with blank at position {}", blank_at),
+                vec![
+                    Op::New { dst: 1, n: 2, via: VIA_ARR, words: [w[0], w[1], 0, 0, 0, 0, 0] },
+                    Op::New { dst: 2, n: 5, via: VIA_ARR, words: [w[2], w[3], w[4], w[5], w[6], 0, 0] },
+                    Op::Compose7 { dst: 0, two: 1, five: 2 },
+                    Op::New { dst: 3, n: 2, via: VIA_ARR, words: [w[1], w[2], 0, 0, 0, 0, 0] },
+                    Op::New { dst: 4, n: 3, via: VIA_ARR, words: [w[3], w[4], w[5], 0, 0, 0, 0] },
+                    Op::Compose6 { dst: 5, one: w[0], two: 3, three: 4 },
+                ],
+            ));
+        }
+        for i in 0..7usize {
+            for j in (i + 1)..7 {
+                let mut w = [0u32; 7];
+                for k in 0..7 {
+                    w[k] = card_word(k * 5 + 2);
+                }
+                w[j] = w[i];
+                let mut blanks = [0u32; 7];
+                blanks[i] = card_word(9);
+                blanks[j] = card_word(9);
+                let mut ops = Vec::new();
+                for ww in [w, blanks] {
+                    ops.push(Op::New { dst: 1, n: 2, via: VIA_ARR, words: [ww[0], ww[1], 0, 0, 0, 0, 0] });
+                    ops.push(Op::New { dst: 2, n: 5, via: VIA_ARR, words: [ww[2], ww[3], ww[4], ww[5], ww[6], 0, 0] });
+                    ops.push(Op::Compose7 { dst: 0, two: 1, five: 2 });
+                    if j < 6 {
+                        ops.push(Op::New { dst: 3, n: 2, via: VIA_ARR, words: [ww[1], ww[2], 0, 0, 0, 0, 0] });
+                        ops.push(Op::New { dst: 4, n: 3, via: VIA_ARR, words: [ww[3], ww[4], ww[5], 0, 0, 0, 0] });
+                        ops.push(Op::Compose6 { dst: 5, one: ww[0], two: 3, three: 4 });
+                    }
+                }
+                out.push((format!("composites with the same card at positions {} and {}", i, j), ops));
+            }
+        }
+        // every selection tuple again, from registers holding real cards, blanks and a repeated card
+        for n in [6u8, 7u8] {
+            let contents: [[u32; 7]; 3] = [
+                [c(0), c(13), c(26), c(39), c(12), c(25), c(51)],
+                [c(4), 0, c(17), 0, c(30), c(43), 0],
+                [c(8), c(8), c(21), c(34), c(8), c(47), c(21)],
+            ];
+            for (ci, content) in contents.iter().enumerate() {
+                let total = (n as u32).pow(5);
+                let mut ops = vec![Op::New { dst: 0, n, via: VIA_ARR, words: *content }];
+                for t in 0..total {
+                    let mut x = t;
+                    let mut idx = [0u8; 5];
+                    for j in (0..5).rev() {
+                        idx[j] = (x % n as u32) as u8;
+                        x /= n as u32;
+                    }
+                    ops.push(Op::Select { dst: 1, src: 0, idx });
+                }
+                out.push((format!("all selection tuples from {} holding content {}", SIZE_NAMES[n as usize], ci), ops));
             }
         }
         // copies are independent
